@@ -39,6 +39,11 @@
 //	            calls of searchNode4 / searchNode16 (their translations in Gen/Node4Gen.v, Gen/Node16Gen.v)
 //	            and of the functions translated here; in the key preparation of Search also
 //	            append(x[:len(x):len(x)], c)
+//
+// translate_iter.go extends the fragment through the hooks of treeTr (treeHooks) and the sorts listed
+// after tVal; for it this file also translates x++ / x-- on unsigned variables, a loop condition
+// `a && b` with a checked read in b (b is evaluated only when a holds), zero-valued slice
+// declarations, and gives counting-down loops (a >= b, a > b) and unsigned a < b their own budgets.
 package main
 
 import (
@@ -165,6 +170,16 @@ const (
 	tLeaf        // xtree: a pointer to a leaf struct, a type parameter constrained by nodeLeaf
 	tKindT       // gkind: nodeKind
 	tVal         // Z: the type parameter V
+	// the sorts of translate_iter.go
+	tU64     // N, < 2^64: uint
+	tRefPtr  // option gref: *nodeRef (None: the nil pointer)
+	tEntry   // gref * Z: a local struct {nodeRef; int}
+	tEntries // list (gref * Z): a slice of them
+	tKV      // xtree: the pair restore(p) returns / an element a range loop receives, as the leaf it stands for
+	tYield   // nat -> bool: the parameter yield of an iterator closure
+	tPred    // xtree -> bool: a parameter func(K, V) bool
+	tNat     // nat: the number of calls of yield made so far
+	tLeaves  // list xtree: the leaves yield was called with, last first
 )
 
 type tSort struct {
@@ -178,8 +193,24 @@ func (s tSort) coqType() string {
 		return "bool"
 	case tInt, tVal:
 		return "Z"
-	case tU8, tU32:
+	case tU8, tU32, tU64:
 		return "N"
+	case tRefPtr:
+		return "option gref"
+	case tEntry:
+		return "(gref * Z)"
+	case tEntries:
+		return "list (gref * Z)"
+	case tKV:
+		return "xtree"
+	case tYield:
+		return "nat -> bool"
+	case tPred:
+		return "xtree -> bool"
+	case tNat:
+		return "nat"
+	case tLeaves:
+		return "list xtree"
 	case tBytes:
 		return "list N"
 	case tRef, tPtr:
@@ -200,7 +231,9 @@ func (s tSort) coqType() string {
 
 func (s tSort) String() string {
 	names := map[tKind]string{tBool: "bool", tInt: "int", tU8: "uint8", tU32: "uint32", tBytes: "bytes", tRef: "nodeRef",
-		tPtr: "unsafe.Pointer", tRefs: "[n]nodeRef", tNode: "*nodeK", tHdr: "*node", tLeaf: "leaf pointer", tKindT: "nodeKind", tVal: "V"}
+		tPtr: "unsafe.Pointer", tRefs: "[n]nodeRef", tNode: "*nodeK", tHdr: "*node", tLeaf: "leaf pointer", tKindT: "nodeKind", tVal: "V",
+		tU64: "uint", tRefPtr: "*nodeRef", tEntry: "struct{nodeRef; int}", tEntries: "[]struct{nodeRef; int}", tKV: "restored pair", tYield: "yield",
+		tPred: "func(K, V) bool", tNat: "nat", tLeaves: "leaves"}
 	if s.k == tNode || ((s.k == tBytes || s.k == tRefs) && s.n != 0) {
 		return fmt.Sprintf("%s(%d)", names[s.k], s.n)
 	}
@@ -211,8 +244,11 @@ func (s tSort) String() string {
 }
 
 func (s tSort) width() string { // of the unsigned sorts
-	if s.k == tU8 {
+	switch s.k {
+	case tU8:
 		return "8"
+	case tU64:
+		return "64"
 	}
 	return "32"
 }
@@ -273,12 +309,24 @@ func treeSortOf(t types.Type) tSort {
 			return tSort{tU8, 0}
 		case types.Uint32:
 			return tSort{tU32, 0}
+		case types.Uint, types.Uint64:
+			return tSort{tU64, 0}
 		case types.UnsafePointer:
 			return tSort{tPtr, 0}
 		}
 	case *types.Slice:
 		if isByte(u.Elem()) {
 			return tSort{tBytes, 0}
+		}
+		if namedName(u.Elem()) == "nodeRef" {
+			return tSort{tRefs, 0}
+		}
+		if treeSortOf(u.Elem()).k == tEntry {
+			return tSort{tEntries, 0}
+		}
+	case *types.Struct: // struct {nodeRef; int}, whatever the field names
+		if u.NumFields() == 2 && namedName(u.Field(0).Type()) == "nodeRef" && treeSortOf(u.Field(1).Type()).k == tInt {
+			return tSort{tEntry, 0}
 		}
 	case *types.Array:
 		if isByte(u.Elem()) {
@@ -295,6 +343,9 @@ func treeSortOf(t types.Type) tSort {
 		if namedName(e) == "node" {
 			return tSort{tHdr, 0}
 		}
+		if namedName(e) == "nodeRef" {
+			return tSort{tRefPtr, 0}
+		}
 		if a, ok := e.Underlying().(*types.Array); ok && isByte(a.Elem()) {
 			return tSort{tBytes, int(a.Len())}
 		}
@@ -309,8 +360,22 @@ func treeSortOf(t types.Type) tSort {
 
 type tBind struct {
 	name string // the bound name
-	code string // an option (gres == false) or a gres (gres == true) term
+	code string // an option (gres == false) or a gres (gres == true) term; a plain term when let is set
 	gres bool
+	let  bool // let name := code in (a call of yield: no failure case)
+}
+
+// the result constructors of a context that does not return gres / lres (translate_iter.go: iterator closures)
+type tResNames struct {
+	panicC, fuelC string
+}
+
+// extension points used by translate_iter.go (nil: none)
+type treeHooks struct {
+	expr     func(e ast.Expr) (string, tSort, bool)
+	stmt     func(st ast.Stmt, rest []ast.Stmt, c *tCtx, ind string) (string, bool)
+	assigned func(n ast.Node) []types.Object
+	ret      func(s *ast.ReturnStmt, c *tCtx) (string, bool)
 }
 
 // a translated callee
@@ -323,6 +388,7 @@ type treeCallee struct {
 }
 
 type tCtx struct {
+	res    *tResNames    // non-nil: the term under construction has the result type of an iterator closure (ires)
 	inLoop bool          // the term under construction has type lres (else gres)
 	fall   func() string // control falls off the end of the statement list
 	brk    func() string // break (nil: not allowed here)
@@ -346,21 +412,31 @@ type treeTr struct {
 	resSorts []tSort
 	zeroVars map[types.Object]bool // `var x V` never assigned: the zero value
 	fd       *ast.FuncDecl
+	hooks    *treeHooks
 }
 
 func (t *treeTr) panicC(c *tCtx) string {
+	if c.res != nil {
+		return c.res.panicC
+	}
 	if c.inLoop {
 		return "LPanic"
 	}
 	return "GPanic"
 }
 func (t *treeTr) fuelC(c *tCtx) string {
+	if c.res != nil {
+		return c.res.fuelC
+	}
 	if c.inLoop {
 		return "LFuel"
 	}
 	return "GFuel"
 }
 func (t *treeTr) retC(c *tCtx) string {
+	if c.res != nil { // the value is the result
+		return ""
+	}
 	if c.inLoop {
 		return "LRet"
 	}
@@ -369,7 +445,7 @@ func (t *treeTr) retC(c *tCtx) string {
 
 func (t *treeTr) bindOpt(code string) string {
 	n := t.fresh("v")
-	t.pre = append(t.pre, tBind{n, code, false})
+	t.pre = append(t.pre, tBind{name: n, code: code})
 	return n
 }
 
@@ -398,7 +474,7 @@ func tLit(v constant.Value, s tSort) (string, bool) {
 			}
 			return "false", true
 		}
-	case tU8, tU32:
+	case tU8, tU32, tU64:
 		return natLit(v)
 	case tInt:
 		iv := constant.ToInt(v)
@@ -445,7 +521,7 @@ func (t *treeTr) asZ(code string, s tSort, at ast.Node) string {
 	switch s.k {
 	case tInt:
 		return code
-	case tU8, tU32:
+	case tU8, tU32, tU64:
 		return app("Z.of_N", code)
 	}
 	t.fail(at, "not an integer")
@@ -454,6 +530,11 @@ func (t *treeTr) asZ(code string, s tSort, at ast.Node) string {
 
 func (t *treeTr) tExpr(e ast.Expr) (string, tSort) {
 	e = ast.Unparen(e)
+	if t.hooks != nil && t.hooks.expr != nil {
+		if code, s, ok := t.hooks.expr(e); ok {
+			return code, s
+		}
+	}
 	tv, ok := t.info.Types[e]
 	if !ok {
 		if id, isId := e.(*ast.Ident); !isId || (t.info.Uses[id] == nil && t.info.Defs[id] == nil) {
@@ -478,7 +559,7 @@ func (t *treeTr) tExpr(e ast.Expr) (string, tSort) {
 				t.consts[c.Name()] = fmt.Sprintf("(* const %s = %s (node.go), used at the integer type of each occurrence *)\nDefinition %s : N := %s.\n",
 					c.Name(), c.Val().ExactString(), name, l)
 				switch s.k {
-				case tU8, tU32:
+				case tU8, tU32, tU64:
 					return name, s
 				case tInt:
 					return app("Z.of_N", name), s
@@ -518,7 +599,7 @@ func (t *treeTr) tExpr(e ast.Expr) (string, tSort) {
 			return app("negb", a), s
 		case x.Op == token.SUB && s.k == tInt:
 			return app("Z.opp", a), s
-		case x.Op == token.ADD && (s.k == tInt || s.k == tU8 || s.k == tU32):
+		case x.Op == token.ADD && (s.k == tInt || s.k == tU8 || s.k == tU32 || s.k == tU64):
 			return a, s
 		}
 		t.fail(e, "unary operator outside the fragment")
@@ -668,7 +749,7 @@ func (t *treeTr) tBinary(x *ast.BinaryExpr) (string, tSort) {
 		switch s.k {
 		case tInt:
 			return app("Z."+f, a, b), s // unbounded
-		case tU8, tU32:
+		case tU8, tU32, tU64:
 			return app(f+"w", s.width(), a, b), s // wraps at the operand width
 		}
 		t.fail(x, "arithmetic at this type")
@@ -677,7 +758,7 @@ func (t *treeTr) tBinary(x *ast.BinaryExpr) (string, tSort) {
 		switch s.k {
 		case tInt:
 			pre = "Z."
-		case tU8, tU32:
+		case tU8, tU32, tU64:
 			pre = "N."
 		case tKindT:
 			switch x.Op {
@@ -726,7 +807,7 @@ func (t *treeTr) tCall(x *ast.CallExpr) (string, tSort) {
 		case to.k == tBad || from.k == tBad:
 		case to == from:
 			return a, to
-		case to.k == tInt && (from.k == tU8 || from.k == tU32):
+		case to.k == tInt && (from.k == tU8 || from.k == tU32 || from.k == tU64):
 			return app("Z.of_N", a), to // always fits
 		case to.k == tU32 && from.k == tU8:
 			return a, to // widening: the value is unchanged
@@ -751,7 +832,7 @@ func (t *treeTr) tCall(x *ast.CallExpr) (string, tSort) {
 			switch o.Name() {
 			case "len":
 				if len(x.Args) == 1 {
-					if a, s := t.tExpr(x.Args[0]); s.k == tBytes {
+					if a, s := t.tExpr(x.Args[0]); s.k == tBytes || s.k == tRefs || s.k == tEntries {
 						return app("Z.of_nat", app("List.length", a)), tSort{tInt, 0}
 					}
 				}
@@ -766,7 +847,7 @@ func (t *treeTr) tCall(x *ast.CallExpr) (string, tSort) {
 						switch s.k {
 						case tInt:
 							acc = app("Z.min", acc, b)
-						case tU8, tU32:
+						case tU8, tU32, tU64:
 							acc = app("N.min", acc, b)
 						default:
 							t.fail(x, "min at this type")
@@ -856,7 +937,7 @@ func (t *treeTr) callee(x *ast.CallExpr, name string, recv *string) (string, tSo
 		return code, c.res
 	}
 	n := t.fresh("r")
-	t.pre = append(t.pre, tBind{n, code, true})
+	t.pre = append(t.pre, tBind{name: n, code: code, gres: true})
 	return n, c.res
 }
 
@@ -868,7 +949,9 @@ func (t *treeTr) takePre() []tBind { p := t.pre; t.pre = nil; return p }
 func (t *treeTr) wrap(c *tCtx, pre []tBind, body string, ind string) string {
 	for i := len(pre) - 1; i >= 0; i-- {
 		b := pre[i]
-		if b.gres {
+		if b.let {
+			body = ind + "let " + b.name + " := " + top(b.code) + " in\n" + body
+		} else if b.gres {
 			body = ind + "match " + top(b.code) + " with\n" + ind + "| GRet " + b.name + " =>\n" + body + "\n" +
 				ind + "| GPanic => " + t.panicC(c) + "\n" + ind + "| GFuel => " + t.fuelC(c) + "\n" + ind + "end"
 		} else {
@@ -952,6 +1035,14 @@ func (t *treeTr) assignedIn(n ast.Node) []types.Object {
 		}
 		return true
 	})
+	if t.hooks != nil && t.hooks.assigned != nil {
+		for _, o := range t.hooks.assigned(n) {
+			if !seen[o] {
+				seen[o] = true
+				out = append(out, o)
+			}
+		}
+	}
 	return out
 }
 
@@ -1025,6 +1116,11 @@ func (t *treeTr) tStmts(list []ast.Stmt, c *tCtx, ind string) string {
 		pre := t.takePre()
 		return t.wrap(c, pre, ind+"let "+name+" := "+top(code)+" in\n"+t.tStmts(rest, c, ind), ind)
 	}
+	if t.hooks != nil && t.hooks.stmt != nil {
+		if code, ok := t.hooks.stmt(st, rest, c, ind); ok {
+			return code
+		}
+	}
 	switch s := st.(type) {
 	case *ast.EmptyStmt:
 		return t.tStmts(rest, c, ind)
@@ -1081,6 +1177,10 @@ func (t *treeTr) tStmts(list []ast.Stmt, c *tCtx, ind string) string {
 			return let(t.declareT(obj, ds, s), "0")
 		case tBool:
 			return let(t.declareT(obj, ds, s), "false")
+		case tBytes, tRefs, tEntries:
+			if ds.n == 0 { // a nil slice: no elements
+				return let(t.declareT(obj, ds, s), "(@nil "+map[tKind]string{tBytes: "N", tRefs: "gref", tEntries: "(gref * Z)"}[ds.k]+")")
+			}
 		case tVal:
 			if len(t.assignedAnywhere(obj)) == 0 { // the zero value of V: only `return zero, false` may mention it
 				t.sorts[obj] = ds
@@ -1091,8 +1191,15 @@ func (t *treeTr) tStmts(list []ast.Stmt, c *tCtx, ind string) string {
 		t.fail(s, "declaration without a value at this type")
 	case *ast.IncDecStmt:
 		obj, ls, ok := t.local(s.X)
+		if ok && (ls.k == tU8 || ls.k == tU32 || ls.k == tU64) { // wraps at the width of the variable
+			op := "addw"
+			if s.Tok == token.DEC {
+				op = "subw"
+			}
+			return let(t.nameOf(obj), app(op, ls.width(), t.nameOf(obj), "1"))
+		}
 		if !ok || ls.k != tInt {
-			t.fail(s, "++ / -- of something else than an int variable")
+			t.fail(s, "++ / -- of something else than an integer variable")
 		}
 		op := "Z.add"
 		if s.Tok == token.DEC {
@@ -1138,7 +1245,7 @@ func (t *treeTr) tStmts(list []ast.Stmt, c *tCtx, ind string) string {
 			switch ls.k {
 			case tInt:
 				return let(t.nameOf(obj), app("Z."+f, t.nameOf(obj), code))
-			case tU8, tU32:
+			case tU8, tU32, tU64:
 				return let(t.nameOf(obj), app(f+"w", ls.width(), t.nameOf(obj), code))
 			}
 		}
@@ -1270,6 +1377,11 @@ func (t *treeTr) assignedAnywhere(obj types.Object) []ast.Node {
 }
 
 func (t *treeTr) ret(s *ast.ReturnStmt, c *tCtx) string {
+	if t.hooks != nil && t.hooks.ret != nil {
+		if code, ok := t.hooks.ret(s, c); ok {
+			return code
+		}
+	}
 	if len(s.Results) != len(t.resSorts) {
 		t.fail(s, "return")
 	}
@@ -1290,7 +1402,7 @@ func (t *treeTr) ret(s *ast.ReturnStmt, c *tCtx) string {
 		}
 		t.fail(s, "`return x, false` with x something else than a never-assigned `var x V`")
 	}
-	if tv, ok := t.info.Types[ast.Unparen(s.Results[0])]; ok && tv.IsNil() && t.resSorts[0].k == tPtr {
+	if tv, ok := t.info.Types[ast.Unparen(s.Results[0])]; ok && tv.IsNil() && (t.resSorts[0].k == tPtr || t.resSorts[0].k == tRefPtr) {
 		return t.retC(c) + " None" // the nil pointer
 	}
 	v, vs := t.tExpr(s.Results[0])
@@ -1303,7 +1415,7 @@ func (t *treeTr) ret(s *ast.ReturnStmt, c *tCtx) string {
 // the iteration budget of a loop. It is NOT trusted: running out of it is the visible outcome *Fuel,
 // which the theorems exclude.
 //
-//	for ..; a < b; ..     Z.to_nat (b - a) at loop entry
+//	for ..; a < b; ..     Z.to_nat (b - a) at loop entry  (a >= b: a - b + 1;  a > b: a - b)
 //	a condition reading an array of static length L      L
 //	anything else         the budget `fuel` of the enclosing function (which then takes it as a parameter)
 func (t *treeTr) loopFuel(s *ast.ForStmt) string {
@@ -1313,6 +1425,21 @@ func (t *treeTr) loopFuel(s *ast.ForStmt) string {
 		b, sb := t.tExpr(be.Y)
 		if sa.k == tInt && sb.k == tInt && len(t.pre) == npre {
 			return app("Z.to_nat", app("Z.sub", b, a))
+		}
+		if sa == sb && (sa.k == tU8 || sa.k == tU32 || sa.k == tU64) && len(t.pre) == npre { // for ..; a < b; .. on unsigned
+			return app("N.to_nat", app("N.sub", b, a))
+		}
+		t.pre = t.pre[:npre]
+	}
+	if be, ok := ast.Unparen(s.Cond).(*ast.BinaryExpr); ok && (be.Op == token.GEQ || be.Op == token.GTR) { // counting down
+		npre := len(t.pre)
+		a, sa := t.tExpr(be.X)
+		b, sb := t.tExpr(be.Y)
+		if sa.k == tInt && sb.k == tInt && len(t.pre) == npre {
+			if be.Op == token.GEQ {
+				return app("Z.to_nat", app("Z.add", app("Z.sub", a, b), "1%Z"))
+			}
+			return app("Z.to_nat", app("Z.sub", a, b))
 		}
 		t.pre = t.pre[:npre]
 	}
@@ -1335,10 +1462,26 @@ func (t *treeTr) loopFuel(s *ast.ForStmt) string {
 	return t.fuelArg()
 }
 
+// does translating e bind a checked read? (translated and discarded)
+func (t *treeTr) hasCheckedRead(e ast.Expr) bool {
+	saved := t.pre
+	t.pre = nil
+	usedBefore := map[string]bool{}
+	for k, v := range t.used {
+		usedBefore[k] = v
+	}
+	t.tExpr(e)
+	n := len(t.pre)
+	t.pre = saved
+	t.used = usedBefore // the fresh names of the discarded translation are free again
+	return n > 0
+}
+
 func (t *treeTr) loop(s *ast.ForStmt, rest []ast.Stmt, c *tCtx, ind string) string {
 	if s.Init != nil { // the init statement runs once, before the loop
 		inner := *s
 		inner.Init = nil
+		inner.For = s.Init.End() // a variable the init statement declares is declared outside the loop that remains
 		return t.tStmts(concatStmts([]ast.Stmt{s.Init, &inner}, rest), c, ind)
 	}
 	t.nloops++
@@ -1385,7 +1528,18 @@ func (t *treeTr) loop(s *ast.ForStmt, rest []ast.Stmt, c *tCtx, ind string) stri
 	savedPre := t.takePre()
 	body := "    match fuel with\n    | O => LFuel\n    | S fuel =>\n" + t.tStmts(s.Body.List, lc, "      ") + "\n    end"
 	var fn string
-	if s.Cond != nil {
+	if be, ok := ast.Unparen(s.Cond).(*ast.BinaryExpr); s.Cond != nil && ok && be.Op == token.LAND && t.hasCheckedRead(be.Y) {
+		// a && b with a checked read in b: b is evaluated only when a holds
+		a, as := t.tExpr(be.X)
+		preA := t.takePre()
+		b, bs := t.tExpr(be.Y)
+		preB := t.takePre()
+		if as.k != tBool || bs.k != tBool {
+			t.fail(s.Cond, "condition")
+		}
+		inner := t.wrap(lc, preB, "    if "+top(b)+" then (\n"+body+"\n    ) else LDone "+val, "    ")
+		fn = t.wrap(lc, preA, "  if "+top(a)+" then (\n"+inner+"\n  ) else LDone "+val, "  ")
+	} else if s.Cond != nil {
 		cond, cs := t.tExpr(s.Cond)
 		if cs.k != tBool {
 			t.fail(s.Cond, "condition")
@@ -1404,7 +1558,7 @@ func (t *treeTr) loop(s *ast.ForStmt, rest []ast.Stmt, c *tCtx, ind string) stri
 	// the call site
 	restC := t.tStmts(rest, c, ind+"    ")
 	return ind + "match " + call(fuelExpr) + " with\n" +
-		ind + "| LRet r => " + t.retC(c) + " r\n" +
+		ind + "| LRet r => " + strings.TrimSpace(t.retC(c)+" r") + "\n" +
 		ind + "| LDone " + pat + " =>\n" + restC + "\n" +
 		ind + "| LPanic => " + t.panicC(c) + "\n" +
 		ind + "| LFuel => " + t.fuelC(c) + "\n" +
@@ -1415,8 +1569,9 @@ func (t *treeTr) loop(s *ast.ForStmt, rest []ast.Stmt, c *tCtx, ind string) stri
 
 type treeFuncSpec struct {
 	fd     *ast.FuncDecl
-	coq    string // g_<name>
-	search bool   // a Search method: translated from `n := t.root` on, the key preparation separately
+	coq    string          // g_<name>
+	search bool            // a Search method: translated from `n := t.root` on, the key preparation separately
+	setup  func(t *treeTr) // translate_iter.go: installs its hooks
 }
 
 func (t *treeTr) signature(fd *ast.FuncDecl) string {
@@ -1435,6 +1590,9 @@ func translateTreeFunc(fset *token.FileSet, info *types.Info, callees map[string
 		base:     spec.coq,
 		zeroVars: map[types.Object]bool{},
 		fd:       fd,
+	}
+	if spec.setup != nil {
+		spec.setup(t)
 	}
 	header := t.signature(fd)
 	defer func() {
@@ -1463,7 +1621,10 @@ func translateTreeFunc(fset *token.FileSet, info *types.Info, callees map[string
 			t.recv = robj
 		} else {
 			s := treeSortOf(robj.Type())
-			if s.k != tHdr {
+			if s.k == tRefPtr { // a method of *nodeRef called on an addressable nodeRef: the receiver is that nodeRef (read only)
+				s = tSort{tRef, 0}
+			}
+			if s.k != tHdr && s.k != tRef {
 				t.fail(fd.Recv.List[0].Type, "receiver type outside the fragment")
 			}
 			binders = append(binders, "("+t.declareT(robj, s, fd.Name)+" : "+s.coqType()+")")
@@ -1810,4 +1971,18 @@ func emitTreeTranslations(repo, outdir string) {
 	for _, d := range defs {
 		sb.WriteString("\n" + d)
 	}
+	treeShared = &treeSharedState{fset: fset, files: files, info: info, callees: callees, consts: consts, typeErrs: typeErrs}
 }
+
+// what emitTreeTranslations leaves for emitIterTranslations (translate_iter.go): the type-checked package and
+// the functions translated so far
+type treeSharedState struct {
+	fset     *token.FileSet
+	files    []*ast.File
+	info     *types.Info
+	callees  map[string]*treeCallee
+	consts   map[string]string // the named constants Gen/TreeGen.v defines
+	typeErrs []types.Error
+}
+
+var treeShared *treeSharedState
